@@ -214,3 +214,63 @@ func wireBriefRpcs(es []*Rpc) []string {
 	}
 	return out
 }
+
+// c06FailOpen is a client transport on which the opening envelope of the next stream is NOT written: the
+// caller's context ends while the write is pending and the write returns that error (a transport that
+// honours the context, a peer that is not reading). Everything else passes.
+type c06FailOpen struct {
+	*End
+	mu     sync.Mutex
+	cancel context.CancelFunc
+}
+
+func (t *c06FailOpen) Write(ctx context.Context, rpc *Rpc) error {
+	if rpc.Body == nil && rpc.Trailer == nil && rpc.Reset_ == nil {
+		t.mu.Lock()
+		c := t.cancel
+		t.cancel = nil
+		t.mu.Unlock()
+		if c != nil {
+			c()
+			return ctx.Err()
+		}
+	}
+	return t.End.Write(ctx, rpc)
+}
+
+// c06ResetWithoutOpen: a streaming call whose opening write fails because the caller's context ended
+// while it was pending — nothing of the call reached the wire. Nothing may follow either: a reset for
+// an id the client never opened is not an envelope of the protocol (per id, a client's history starts
+// with a header-only envelope).
+func c06ResetWithoutOpen(r *Run) {
+	if !r.Want("failedopen") {
+		return
+	}
+	for rep, reps := 0, r.Scale(4, 40); rep < reps && r.NumViolations() <= 4; rep++ {
+		for _, method := range []string{mBidi, mSrvStream, mCliStream} {
+			in := map[string]any{"method": method, "rep": rep, "opening_write": "fails with the caller's context error, nothing is emitted"}
+			r.Progress("failedopen", in)
+			var tr *c06FailOpen
+			rig := c07NewRigWith(rep%2 == 0, func(ce *End) goat.RpcReadWriter { tr = &c06FailOpen{End: ce}; return tr })
+			rig.Impl.SetUnary(func(ctx context.Context, req []byte) ([]byte, error) { return req, nil })
+			rig.Impl.SetStream(func(m string, ss grpc.ServerStream) error { <-ss.Context().Done(); return ss.Context().Err() })
+			ctx, cancel := context.WithCancel(context.Background())
+			tr.cancel = cancel
+			cs, err := rig.CC.NewStream(ctx, descOf(method), method)
+			if err == nil {
+				recvB(cs)
+			}
+			// a later, ordinary call on the connection
+			cctx, ccancel := context.WithTimeout(context.Background(), hangTimeout)
+			callUnary(cctx, rig.CC, []byte("after"))
+			ccancel()
+			time.Sleep(20 * time.Millisecond) // whatever the client still wants to say about the failed call
+			settleGoroutines(2 + 2 + 8)
+			evs := rig.Wire.Snapshot()
+			r.Eval(fmt.Sprintf("failedopen/%s/%d", method, rep), true)
+			r.Count("c06.failedopen")
+			checkWire(r, "failedopen.wire", evs, in)
+			rig.Close()
+		}
+	}
+}
